@@ -60,11 +60,19 @@ CLAIMED = {
         "text": "PARENT SIDE OF FORK MODE ONLY. For every wait status word the kernel can store, every waitpid result and both outcomes of reading the success byte, CBMC proves on the real function that the parent's exit code is 0 only if the success byte arrived or the worker exited normally with code 0, that a worker killed by any signal yields a code that is non-zero modulo 256, that a normal exit code is propagated, and that the error path exits non-zero. Loop-free code over a 2^32 x 2^32 domain: a proof.",
         "note": "Not decided: that a panicking, aborting or OOM-killed worker never writes the success byte (argued from subprocess_result's control flow: the byte is written after the last `?`), the no-fork path's reliance on the Rust runtime's exit codes, and whether the output file is complete when the byte is sent - these are OS/runtime semantics outside any contract. Trusted: stubs.c as the OS contract; glibc's wait-status encoding.",
     },
+    "C16": {
+        "category": "proof",
+        "design_ref": "DESIGN.md section 6, C16",
+        "engine": "verus+kani",
+        "technique": "Verus (Z3) structural induction over ALL expression trees on the mechanically extracted evaluate_expression body against a recursive spec function of GNU ld's semantics; Kani (CBMC, z3 for division) on the same extraction for the stub contracts, per-operator bit-precise checks and evaluate_assertions",
+        "text": "EVALUATOR ONLY (the parser's precedence/associativity is not covered). evaluate_expression is cut out of the real file on every run (rewrite rules X1-X6, X9 counted in the evidence), given `ensures pure(expr) ==> result == spec_eval(expr)` / `decreases expr`, and Verus proves it for every tree of literals and operators: 64-bit wrapping + - *, signed /, unsigned comparisons, shift counts mod 64, short-circuit && ||, MIN/MAX, ~ ! unary-, ALIGN; errors exactly on /0 and ALIGN(0); termination. Three sub-expressions Verus cannot model (out-of-range `as` casts) are replaced by contract-carrying stubs whose contracts Kani proves on the same extracted text for all 2^128 operand pairs. Kani also proves ASSERT fails exactly when its expression is zero. Induction over unbounded trees needs a deductive prover; the bit-level leaves need a bit-precise one.",
+        "note": "Not covered: parse_expression (winnow combinators; C precedence of the parser is NOT decided), trees containing symbols / SIZEOF / ADDR / ORIGIN / LENGTH leaves (opaque), ALIGN relative to a non-zero location counter. The Kani half runs on a standalone extraction with stand-in context types (Route S) because evaluate_expression::<Elf> on the real crate exhausts 60 GB in CBMC. Trusted: the spec (ldexp.c transcription), assume_specifications for wrapping_neg and u64::from(bool), vstd's specs, the extraction rules.",
+    },
 }
 
 PENDING = {
     pid: "check under construction in this session (planned claim, see DESIGN.md section 6); not claimed until its obligations run green"
-    for pid in ["C01", "C02", "C08", "C09", "C11", "C15", "C16", "C22", "C30", "C36"]
+    for pid in ["C01", "C02", "C08", "C09", "C11", "C15", "C22", "C30", "C36"]
 }
 
 NOT_APPLICABLE = {
